@@ -135,6 +135,17 @@ decreasing_by
   · have := swapRemove_length l i h; omega
   · omega
 
+/-- the same loop when `track_energy_offset` is set: `reb_simulation_remove_particle(r,i,1)` (keep_sorted)
+    shifts the tail down by one instead of moving the last particle into the hole; `i--; N--` as before -/
+def openLoopSorted (out : α → Bool) (i : Nat) (l : List α) : List α :=
+  if h : i < l.length then
+    if out l[i] then openLoopSorted out i (l.eraseIdx i) else openLoopSorted out (i+1) l
+  else l
+termination_by (l.length - i) + l.length
+decreasing_by
+  · have := List.length_eraseIdx_of_lt h; omega
+  · omega
+
 /-- the same loop when a tree is in use: particles are only marked (`y = NaN`),
     indices and `N` stay (`r->tree_needs_update = 1`), except that
     `reb_simulation_remove_particle` sets `N = 0` outright when `N == 1`. -/
